@@ -26,12 +26,17 @@
     frag.relay | frag.dictiter | frag.subrelay | frag.subto | frag.classvar <text>      (string layer)
     re.fullmatch | re.search | re.sub <pattern name> <text>              → none | ok <start>:<end> g1|g2|… (`~` = unset group) | <text>   (generated patterns)
     frag.initcall <value> <var_type>                                     → true | false | IndexError
+    view.annotated <var_type> <anno,…> <immutable type,…> | view.origin <var_type> | view.super <statement>
+                                                                         → H=<hand-written scanner> G=<composition over the generated patterns>
+    view.init <statement>                                                → ok <symbol>|<initializer> | AssertionError   (generated patterns)
+    view.immutable <var_type>                                            → <text>
     s! <op…>      the same op, printing the string layer's answer only (inputs outside the abstract layer's domain)
 -/
 import Tranp.Driver.Common
 import Tranp.Model.ScopeStr
 import Tranp.Model.Naming
 import Tranp.Model.Fragment
+import Tranp.Model.ViewHelper
 import Tranp.Generated.C08Regex
 
 namespace Tranp.Driver.Scope
@@ -259,6 +264,18 @@ def step1 (st : St) : List String → St × String
     (st, match Fragment.isInitializerCall (unhexD v) (unhexD ty) with
       | some b => toString b
       | none => "IndexError")
+  | ["view.annotated", vt, annos, imm] =>
+    let sh := fun (r : Except ViewHelper.Err Str) => match r with | .ok t => "ok " ++ Str.hex t | .error e => e.text
+    (st, s!"H={sh (ViewHelper.annotated (unhexD vt) (unhexL annos) (unhexL imm))} G={sh (ViewHelper.Gen.annotated (unhexD vt) (unhexL annos) (unhexL imm))}")
+  | ["view.origin", vt] =>
+    let sh := fun (r : Except ViewHelper.Err Str) => match r with | .ok t => "ok " ++ Str.hex t | .error e => e.text
+    (st, s!"H={sh (ViewHelper.varTypeOrigin (unhexD vt))} G={sh (ViewHelper.Gen.varTypeOrigin (unhexD vt))}")
+  | ["view.super", t] =>
+    let sh := fun (r : Except ViewHelper.Err (Str × Str)) => match r with | .ok (a, b) => s!"ok {Str.hex a}|{Str.hex b}" | .error e => e.text
+    (st, s!"H={sh (ViewHelper.superInitParse (unhexD t))} G={sh (ViewHelper.Gen.superInitParse (unhexD t))}")
+  | ["view.init", t] =>
+    (st, match ViewHelper.Gen.initializerParse (unhexD t) with | .ok (a, b) => s!"ok {Str.hex a}|{Str.hex b}" | .error e => e.text)
+  | ["view.immutable", vt] => (st, Str.hex (ViewHelper.toImmutable (unhexD vt)))
   | ["dsn.fulljoined", dsn, elems] => (st, Str.hex (ScopeStr.fullJoined (unhexD dsn) (unhexL elems)))
   | ["dsn.localjoined", elems] => (st, Str.hex (ScopeStr.localJoined (unhexL elems)))
   | ["dsn.parsed", dsn] => let p := ScopeStr.parsed (unhexD dsn); (st, s!"{Str.hex p.1}|{Str.hex p.2}")
